@@ -248,7 +248,9 @@ func buildDescriptor(m *gMsg) protoreflect.MessageDescriptor {
 
 // ---- values -----------------------------------------------------------------
 
-var strPool = []string{"", "a", "b", "ab", "hello", " ", "a  b", "\x00", "ÿ", "值", "x\ny", "2021-01-01T00:00:00Z", "zz", "a\u3000b", " lead", "trail ", "tab\there", "q\"uote", "back\\slash", "1970-01-01T00:00:00+08:00", "C:\\data\\", "\\", "two  blanks", "ends\\\"q"}
+var strPool = []string{"", "a", "b", "ab", "hello", " ", "a  b", "\x00", "ÿ", "值", "x\ny", "2021-01-01T00:00:00Z", "zz", "a\u3000b", " lead", "trail ", "tab\there", "q\"uote", "back\\slash", "1970-01-01T00:00:00+08:00", "C:\\data\\", "\\", "two  blanks", "ends\\\"q",
+	// long values (a pretty printer may wrap them): every word boundary is a run of blanks or a non-ASCII space
+	strings.Repeat("lorem  ipsum\u3000dolor  ", 12), strings.Repeat("ab  ", 60), strings.Repeat("x\u00a0y z  ", 30)}
 
 // genWellKnown builds a Timestamp / Duration value of the given message descriptor
 func genWellKnown(r *rand.Rand, kind string, md protoreflect.MessageDescriptor) protoreflect.Value {
